@@ -137,6 +137,15 @@ type Explorer struct {
 	siblings [][]bool
 	loopCnt  map[ssa.Instruction]int
 	parked   int
+	// cooperative goroutines (threads.go)
+	mainT, cur *gthread
+	parkedT    []*gthread
+	nthreads   int
+	locks      map[*value]*lockState
+	waitGroups map[*value]int64
+	tickers    []*tickerState
+	syncVC     map[syncKey]vclock
+	raceSeen   map[string]bool
 	probe    *Witness
 }
 
@@ -567,6 +576,7 @@ func (e *Explorer) runPath(prefix []bool, wantWitness bool) (completed bool, wit
 	e.prefix, e.pos, e.pc, e.nondets, e.observes, e.nsym, e.steps = prefix, 0, nil, nil, nil, 0, 0
 	e.covers, e.viol, e.incl, e.jsonToks, e.hashToks, e.siblings = map[string]bool{}, nil, "", nil, nil, nil
 	e.revMaps = false
+	e.resetThreads()
 	e.digests = nil
 	e.asserts, e.assertsS = 0, 0
 	e.loopCnt = map[ssa.Instruction]int{}
@@ -637,6 +647,7 @@ func (e *Explorer) runPath(prefix []bool, wantWitness bool) (completed bool, wit
 		call(i, nil, token.NoPos, fn, nil)
 		completed = true
 	}()
+	e.killThreads()
 	if e.incl != "" && !strings.HasPrefix(e.incl, "bound-exceeded") {
 		// The executor gave up on this path. Complete the path condition reached so
 		// far to concrete inputs: the natively compiled harness is run on them, so a
